@@ -31,6 +31,7 @@ func TestCheck(t *testing.T) {
 		// orders of metric/atomic operations (4 365 schedules for two clients, 150 k distinct pairs)
 		crashkit.EnumerateConc(r, "conc-producers", runner.Pick(r, 1, 2), runner.Pick(r, 40*time.Second, 4*time.Minute))
 		crashkit.EnumerateConc(r, "conc-publishers", runner.Pick(r, 2, 3), runner.Pick(r, 40*time.Second, 4*time.Minute))
+		crashkit.EnumerateConc(r, "conc-publishers-overlap", runner.Pick(r, 2, 3), runner.Pick(r, 40*time.Second, 4*time.Minute))
 		crashkit.EnumerateConc(r, "conc-consumer", runner.Pick(r, 1, 2), runner.Pick(r, 40*time.Second, 4*time.Minute))
 		crashkit.EnumerateConc(r, "conc-prune", runner.Pick(r, 2, 3), runner.Pick(r, 100*time.Second, 6*time.Minute))
 		if r.Thorough() {
@@ -40,6 +41,6 @@ func TestCheck(t *testing.T) {
 	r.Assume("process death only (page cache survives): crash points are 'before each file-mutating syscall SQLite issues' (write/pwrite64/fsync/ftruncate/unlink/rename/openat|O_CREAT ...); power loss (dropping un-fsynced writes) is not modelled")
 	r.Assume("acknowledgement = first WriteHeader/Write on the ResponseWriter (earliest possible instant)")
 	r.Assume("concurrent part: 2-3 clients under the controlled scheduler (scheduling points = lock/atomic/connection operations; data-race freedom is the side condition checked by the -race passes of C03/C18); a (schedule, crash point) pair whose execution prefix equals one already run is not repeated")
-	r.Set("rule", "for each scripted history (ingress on a pull route and on a 2-target fan-out route, Admin publish incl. a refused duplicate batch, pull dequeue/ack/nack/dead-letter/batch ack, explicit WAL checkpoints; a bounded queue (max_depth 3, reject) with refused ingress, a fan-out and a publish batch that find one free slot for two messages; crash points inside the first open + migrate of the database included; thorough: also a lease-centred history; plus EVERY history of length 2 (thorough: 4, within the time budget) over {ingress pull, ingress fan-out, publish 2 items, dequeue 2, ack, nack, dead-letter the oldest unused lease}) the child process is SIGKILLed before its n-th file-mutating SQLite syscall for every n; the parent restarts through the production boot path and requires: database opens, integrity_check ok, counters consistent, contents equal one of the admissible outcomes (acknowledged operations exactly, the one unacknowledged operation applied / not applied / fan-out prefix), every unsettled message offered again exactly once after lease expiry with identical payload and headers; concurrent part: for the scripts conc-producers (pull ingress + fan-out ingress against publish + ingress), conc-publishers (two publish batches racing, <= 2 preemptions), conc-consumer (two ingress against dequeue/ack/dequeue/nack), conc-prune (the same with the clock passing the prune interval between the two ingress requests, so that the retention pruner runs inside a request that overlaps the settlements) and, thorough, conc-three (fan-out producer, publisher, consumer with dead-letter) every schedule (quick: <= 1 preemption; thorough: <= 2, three clients <= 1) x every crash point of that schedule, with one in-flight operation per client admitted; non-trivial = distinct (scenario, last started operation, inside/between) classes and distinct sets of in-flight operations")
+	r.Set("rule", "for each scripted history (ingress on a pull route and on a 2-target fan-out route, Admin publish incl. a refused duplicate batch, pull dequeue/ack/nack/dead-letter/batch ack, explicit WAL checkpoints; a bounded queue (max_depth 3, reject) with refused ingress, a fan-out and a publish batch that find one free slot for two messages; crash points inside the first open + migrate of the database included; thorough: also a lease-centred history; plus EVERY history of length 2 (thorough: 4, within the time budget) over {ingress pull, ingress fan-out, publish 2 items, dequeue 2, ack, nack, dead-letter the oldest unused lease}) the child process is SIGKILLed before its n-th file-mutating SQLite syscall for every n; the parent restarts through the production boot path and requires: database opens, integrity_check ok, counters consistent, contents equal one of the admissible outcomes (acknowledged operations exactly, the one unacknowledged operation applied / not applied / fan-out prefix), every unsettled message offered again exactly once after lease expiry with identical payload and headers; concurrent part: for the scripts conc-producers (pull ingress + fan-out ingress against publish + ingress), conc-publishers (two publish batches racing, <= 2 preemptions), conc-publishers-overlap (two publish batches whose id sets intersect without being equal), conc-consumer (two ingress against dequeue/ack/dequeue/nack), conc-prune (the same with the clock passing the prune interval between the two ingress requests, so that the retention pruner runs inside a request that overlaps the settlements) and, thorough, conc-three (fan-out producer, publisher, consumer with dead-letter) every schedule (quick: <= 1 preemption; thorough: <= 2, three clients <= 1) x every crash point of that schedule, with one in-flight operation per client admitted; non-trivial = distinct (scenario, last started operation, inside/between) classes and distinct sets of in-flight operations")
 	r.Finish()
 }
